@@ -88,6 +88,11 @@ theorem subsetMask_eq_subset (t : Table) (keep : Int → Bool) : subsetMask t ((
   unfold subsetMask subset
   rw [maskRows_eq_filter]
 
+/-- The ids a mask marks are the marked ids, in table order. -/
+theorem maskIds_eq_filter (t : Table) (keep : Int → Bool) : maskIds t ((ids t).map keep) = (ids t).filter keep := by
+  unfold maskIds
+  rw [maskRows_eq_filter, ids_filter]
+
 /-! ## the parent assignment as the source spells it -/
 
 theorem slice_tail (l : List Int) : ({ start := some 1 } : Slice).apply l = l.tail := by
